@@ -936,3 +936,76 @@ Lemma closed_dom_fields : forall o i i',
     internal_ok i' = true ->
     closed_dom o i' = true.
 Proof. intros o i i' H Hd Hp Hr Hi. exact (closed_dom_core_eq o i i' H (mkCoreEq i i' Hd Hp Hr Hi)). Qed.
+
+(* ================================================================== *)
+(* 9. the function and method kinds: all seven kinds                                                                  *)
+(* ================================================================== *)
+
+Lemma core_view_core : forall i, core_view i = core i.
+Proof. reflexivity. Qed.
+
+(* ---- emit.function does not look at name, type, an absent return entry or a harmless carried body ---- *)
+
+Lemma get_internal_body_fn : forall k i, internal_ok i = true -> internal_ok7 i = true ->
+    get_internal_body (Some C03Spec.fname) (Some k) i = Ok [].
+Proof.
+  intros k i H H7. unfold get_internal_body. unfold internal_ok7 in H7.
+  destruct (internal_ok_cases i H) as [E|[it [fnm [Ei [Eb [En Et]]]]]].
+  - destruct (ir_internal i) as [it|]; [|reflexivity]. rewrite E. reflexivity.
+  - rewrite Ei in *. rewrite Eb, En in *. unfold argparse_remnant in *. rewrite Et.
+    apply negb_true_iff in H7. unfold fld_eq_opt. rewrite H7. reflexivity.
+Qed.
+
+Lemma emit_fn_core : forall fo i tds c r, C03Spec.fo_kind fo = c :: r ->
+    internal_ok i = true -> internal_ok7 i = true -> no_ret i ->
+    C03Spec.emit_fn fo i tds = C03Spec.emit_fn fo (core i) tds.
+Proof.
+  intros fo i tds c r Hk H H7 Hnr. unfold C03Spec.emit_fn, emit_function.
+  pose proof (get_internal_body_fn (C03Spec.fo_kind fo) i H H7) as Hb.
+  assert (Hb' : get_internal_body (Some C03Spec.fname) (Some (C03Spec.fo_kind fo)) (core i) = Ok []) by reflexivity.
+  assert (Hf : forall x, py_or (Some C03Spec.fname) x = Ok (Some C03Spec.fname)) by reflexivity.
+  assert (Hkd : forall x, py_or (Some (C03Spec.fo_kind fo)) x = Ok (Some (C03Spec.fo_kind fo))) by (rewrite Hk; reflexivity).
+  rewrite !Hf, !Hkd. cbn [bind]. rewrite Hb, Hb'.
+  assert (Hrp : returns_param i = None).
+  { unfold returns_param. destruct (ir_returns i) as [| |g] eqn:E; try reflexivity. exfalso. apply (Hnr g). exact E. }
+  assert (Hrp' : returns_param (core i) = None) by reflexivity.
+  unfold function_return_val. rewrite Hrp, Hrp'. cbn [core ir_params]. 
+  destruct (map_outcome _ _) as [afp|e]; cbn [bind]; [|reflexivity].
+  destruct (map_outcome _ _) as [dfp|e]; cbn [bind]; [|reflexivity].
+  destruct tds as [text|e]; cbn [bind]; [|reflexivity].
+  destruct (C03Spec.fo_inline fo); cbn [bind fst]; reflexivity.
+Qed.
+
+Lemma to_docstring_text_noret : forall w i i' edd il et est ww,
+    ir_doc i = ir_doc i' -> ir_params i = ir_params i' -> no_ret i -> no_ret i' ->
+    C08Facts.text_of (DocEmit.to_docstring w i edd DocEmit.Rest il et est ww)
+    = C08Facts.text_of (DocEmit.to_docstring w i' edd DocEmit.Rest il et est ww).
+Proof.
+  intros w [n t d ps r b] [n' t' d' ps' r' b'] edd il et est ww Hd Hp Hr Hr'.
+  cbn [ir_doc ir_params] in Hd, Hp. subst d' ps'.
+  unfold DocEmit.to_docstring. cbn [ir_doc ir_params ir_returns].
+  destruct r as [| |g]; [| |exfalso; apply (Hr g); reflexivity];
+    (destruct r' as [| |g']; [| |exfalso; apply (Hr' g'); reflexivity];
+     (destruct (DocEmit.params_of ps) as [pl|]; [|reflexivity]; cbv zeta;
+      repeat match goal with
+             | |- C08Facts.text_of (bind ?x _) = C08Facts.text_of (bind ?x _) => destruct x; cbn [bind]
+             end; reflexivity)).
+Qed.
+
+Lemma fn_text_core : forall w fo i, no_ret i ->
+    C03DocLinkDefs.function_docstring_text w fo i = C03DocLinkDefs.function_docstring_text w fo (core i).
+Proof.
+  intros w fo i Hnr. unfold C03DocLinkDefs.function_docstring_text.
+  assert (X : forall x : outcome (str * ir), (do r <- x; Ok (fst r)) = C08Facts.text_of x)
+    by (intros [[t j]|err]; reflexivity).
+  rewrite !X. apply to_docstring_text_noret; try reflexivity; [exact Hnr|intros g E; discriminate E].
+Qed.
+
+Lemma conv_fn_core : forall o f c r i, internal_ok i = true -> internal_ok7 i = true -> no_ret i ->
+    conv_fn o f (c :: r) i = conv_fn o f (c :: r) (core i).
+Proof.
+  intros o f c r i H H7 Hnr. unfold conv_fn. rewrite (fn_text_core _ _ i Hnr).
+  destruct (C03DocLinkDefs.function_docstring_text _ _ (core i)) as [text|e]; cbn [bind]; [|reflexivity].
+  destruct (C03DocLinkDefs.function_docstring_ir text) as [d|e]; cbn [bind]; [|reflexivity].
+  unfold C03Spec.round_trip_fn. rewrite (emit_fn_core (fn_opts o f (c :: r)) i (Ok text) c r eq_refl H H7 Hnr). reflexivity.
+Qed.
